@@ -75,9 +75,15 @@ def put_layout(P):
         raise AnalysisError("anchor vanished: DelayedQueue.put")
     params = [a.arg for a in fi.node.args.args + fi.node.args.kwonlyargs if a.arg != "self"]
     for n in ast.walk(fi.node):
-        if isinstance(n, ast.Call) and isinstance(n.func, ast.Attribute) and n.func.attr == "append" and dotted(n.func.value) == "self._queue" and n.args and isinstance(n.args[0], ast.Tuple):
+        if isinstance(n, ast.Call) and isinstance(n.func, ast.Attribute) and n.func.attr == "append" and dotted(n.func.value) == "self._queue" and n.args:
+            tup = n.args[0]
+            if isinstance(tup, ast.Name):  # the entry is built in a local first
+                vals = [a.value for a in ast.walk(fi.node) if isinstance(a, ast.Assign) and len(a.targets) == 1 and isinstance(a.targets[0], ast.Name) and a.targets[0].id == tup.id]
+                tup = vals[0] if len(vals) == 1 else tup
+            if not isinstance(tup, ast.Tuple):
+                continue
             t_idx = d_idx = clock = None
-            for i, el in enumerate(n.args[0].elts):
+            for i, el in enumerate(tup.elts):
                 if isinstance(el, ast.Call) and dotted(el.func) in ("time.time", "time.monotonic", "time.perf_counter"):
                     t_idx, clock = i, dotted(el.func)
                 elif isinstance(el, ast.Name) and len(params) > 1 and el.id == params[1]:
@@ -170,6 +176,18 @@ def delay_elapsed(ctx, RD, P, gpaths, ci):
                     env.setdefault(e.extra["name"], []).append(e.extra["term"])
         return env
 
+    # the stamp is taken inside the critical section that inserts the element: a stamp read before the lock was obtained is
+    # older than the insertion by however long the producer waited for the lock, and that wait comes off the delay
+    pf = ci.methods.get("put")
+    al = lock_aliases(P, CLS)
+    nstamp, okst = 0, True
+    for e, held, _p in walk_with_locks(Enumerator(QCfg(P)).run(pf), lambda t: al.get(t, t)):
+        if e.kind == "call" and e.extra.get("func") == clock:
+            nstamp += 1
+            if held.get("self._lock", 0) <= 0:
+                okst = False
+    ctx.check(okst and nstamp >= 1, RD, f"{CLS}.put stamps the element with the queue lock held", "the insertion time is read before the queue lock is held (or not at all): time spent waiting for the lock -- e.g. while remove() runs its predicate -- is subtracted from the delay get() enforces, and a MOVED_FROM is handed out early", pf.loc)
+
     ninst = 0
     for p in walk_body(gpaths):
         pops = [i for i, e in enumerate(p.evs) if e.kind == "call" and re.fullmatch(r"self\._queue\.(popleft|pop)", e.extra.get("func", ""))]
@@ -214,6 +232,95 @@ def delay_elapsed(ctx, RD, P, gpaths, ci):
         )
     if ninst == 0:
         raise AnalysisError("anchor vanished: get() never pops a delayed head")
+
+
+def remove_is_exhaustive(ctx, R, P, ci, accept_shadow_counter: bool) -> None:
+    """remove() may return None only after the loop over the live deque ran to its end (nothing matched).  A fast path that gives
+    up earlier on the strength of derived state is, for the queue's own contract (C17), a different function: an element the
+    predicate would match is not found.  For the pairing property (C08) such a fast path is acceptable if the derived state is a
+    counter kept coherent with the deque: incremented in the critical section of the append, and decremented exactly in the critical
+    sections that actually take an element out (`accept_shadow_counter`)."""
+    al = lock_aliases(P, CLS)
+    canon = lambda t: al.get(t, t)  # noqa: E731
+    rm = ci.methods.get("remove")
+    if rm is None:
+        raise AnalysisError("anchor vanished: DelayedQueue.remove")
+    paths = Enumerator(QCfg(P)).run(rm)
+    n = 0
+    for p in paths:
+        if not (p.outcome is NORMAL or (p.outcome[0] == "return" and (p.outcome[1] is None or render_none(p.outcome[1])))):
+            continue
+        n += 1
+        scanned = any(e.kind == "loop" and "self._queue" in e.text for e in p.evs) and not any(e.kind == "final_iter" for e in p.evs)
+        if scanned:
+            ctx.ok(R, f"{CLS}.remove gives up only after scanning the live deque [{p.sig()[:50]}]", rm.loc)
+            continue
+        guards = [e for e in p.evs if e.kind == "cond" and re.fullmatch(r"self\.(_\w+)( (==|<=) 0)?", e.text) and not e.text.startswith("self._queue")]
+        fld = guards[-1].text.split(" ")[0].split(".")[1] if guards else None
+        why = "remove() returns None on a path that never looks at the queued elements" + (f" (guarded by `{guards[-1].text}` = {guards[-1].extra.get('truth')})" if guards else "")
+        if accept_shadow_counter and fld:
+            okc, msg = shadow_counter_coherent(P, ci, fld, canon)
+            ctx.check(okc, R, f"{CLS}.remove fast path on `{fld}`", why + f": acceptable only if `{fld}` counts queued elements coherently, but {msg} -- the counter drifts, the fast path then skips the scan although a partner is waiting, and both halves of a rename are delivered alone", rm.loc)
+        else:
+            ctx.viol(R, f"{CLS}.remove gives up without scanning [{p.sig()[:50]}]", why + ": an element the predicate would match is not found (the queue's remove() is no longer 'the first element for which the predicate holds')", rm.loc)
+    if n == 0:
+        raise AnalysisError("DelayedQueue.remove: no path returns None")
+
+
+def shadow_counter_coherent(P, ci, fld, canon):
+    """(ok, message): every critical section (and every loop iteration inside one) changes `self.<fld>` as often as it changes the
+    deque's population, in the same direction, with the queue lock held."""
+
+    def scan(m, p, held0):
+        held = held0
+        cnt = {"inc": 0, "dec": 0, "add": 0, "rem": 0}
+
+        def settle():
+            ok = cnt["inc"] == cnt["add"] and cnt["dec"] == cnt["rem"]
+            return ok, f"{m}(): one critical section changes `{fld}` by +{cnt['inc']}/-{cnt['dec']} but the deque by +{cnt['add']}/-{cnt['rem']} elements [{p.sig()[:60]}]"
+
+        for e in p.evs:
+            if e.kind == "acquire":
+                held += 1
+                if held == 1:
+                    cnt = dict.fromkeys(cnt, 0)
+            elif e.kind == "release":
+                held -= 1
+                if held == 0:
+                    ok, msg = settle()
+                    if not ok:
+                        return False, msg
+            elif e.kind == "loop":
+                for b in e.extra["paths"]:
+                    ok, msg = scan(m, b, held)
+                    if not ok:
+                        return False, msg
+            elif e.kind == "store" and e.extra.get("attr") == fld and e.extra.get("recv") == "self":
+                v = e.extra.get("value", "")
+                if v.startswith(f"self.{fld} + "):
+                    cnt["inc"] += 1
+                elif v.startswith(f"self.{fld} - "):
+                    cnt["dec"] += 1
+                else:
+                    return False, f"{m}() assigns `{fld}` = `{v[:40]}`"
+                if held <= 0:
+                    return False, f"{m}() changes `{fld}` without the queue lock"
+            elif e.kind == "call" and re.fullmatch(r"self\._queue\.(append|appendleft)", e.extra.get("func", "")):
+                cnt["add"] += 1
+            elif (e.kind == "call" and re.fullmatch(r"self\._queue\.(popleft|pop)", e.extra.get("func", ""))) or (e.kind == "del" and e.extra.get("container") == "self._queue"):
+                cnt["rem"] += 1
+        if any(cnt.values()):
+            return settle()
+        return True, ""
+
+    for m, fi in ci.methods.items():
+        if m == "__init__":
+            continue
+        for p in Enumerator(QCfg(P)).run(fi):
+            ok, msg = scan(m, p, 0)
+            if not ok:
+                return False, msg
+    return True, ""
 
 
 def get_paths(P):
@@ -494,6 +601,9 @@ def run(ctx) -> None:
     )
     delay_elapsed(ctx, RD, P, gpaths, ci)
 
+    # (whether remove() may give up without scanning is a question of the pairing property, not of this one: every element is
+    # still handed out exactly once if it does -- see C08/partner-search-is-exhaustive)
+
     # ---------------------------------------------------------------- indexed deletion is atomic with the search
     RA = ctx.rule("C17/search-and-delete-atomic", "an element is deleted by index only inside the critical section in which that index was found by enumerating the live deque (no release in between, no snapshot)", floor=1)
     ndel = 0
@@ -575,6 +685,8 @@ VARIANTS = [
     dict(name="B delay subtracted instead of added", expect="fire", rule="C17/delay-elapsed-before-hand-out", edits=[(DQ, "time_left = insert_time + self.delay_sec - time.time()", "time_left = insert_time - self.delay_sec - time.time()")]),
     dict(name="B loop re-computes from a stale clock read", expect="fire", rule="C17/delay-elapsed-before-hand-out", edits=[(DQ, "                time_left = insert_time + self.delay_sec - time.time()\n                while time_left > 0:\n                    time.sleep(time_left)\n                    time_left = insert_time + self.delay_sec - time.time()\n", "                now = time.time()\n                time_left = insert_time + self.delay_sec - now\n                while time_left > 0:\n                    time.sleep(time_left)\n                    time_left = 0\n")]),
     dict(name="B other clock than put()", expect="fire", rule="C17/delay-elapsed-before-hand-out", edits=[(DQ, "                    time_left = insert_time + self.delay_sec - time.time()\n\n", "                    time_left = insert_time + self.delay_sec - time.monotonic()\n\n")]),
+    dict(name="B insertion stamp read before the lock is taken", expect="fire", rule="C17/delay-elapsed-before-hand-out", edits=[(DQ, "        self._lock.acquire()\n        self._queue.append((element, time.time(), delay))\n        self._not_empty.notify()\n        self._lock.release()", "        entry = (element, time.time(), delay)\n        with self._not_empty:\n            self._queue.append(entry)\n            self._not_empty.notify()")]),
+    dict(name="E entry built in a local inside the lock", expect="silent", edits=[(DQ, "        self._lock.acquire()\n        self._queue.append((element, time.time(), delay))\n        self._not_empty.notify()\n        self._lock.release()", "        with self._not_empty:\n            entry = (element, time.time(), delay)\n            self._queue.append(entry)\n            self._not_empty.notify()")]),
     dict(name="E sleep loop in break form", expect="silent", edits=[(DQ, "                time_left = insert_time + self.delay_sec - time.time()\n                while time_left > 0:\n                    time.sleep(time_left)\n                    time_left = insert_time + self.delay_sec - time.time()\n", "                while True:\n                    time_left = insert_time + self.delay_sec - time.time()\n                    if time_left <= 0:\n                        break\n                    time.sleep(time_left)\n")]),
     dict(name="E elapsed test written the other way round", expect="silent", edits=[(DQ, "                time_left = insert_time + self.delay_sec - time.time()\n                while time_left > 0:\n                    time.sleep(time_left)\n                    time_left = insert_time + self.delay_sec - time.time()\n", "                while time.time() - insert_time < self.delay_sec:\n                    time.sleep(insert_time + self.delay_sec - time.time())\n")]),
     dict(name="E with-statement for explicit pairs in put", expect="silent", edits=[(DQ, "        self._lock.acquire()\n        self._queue.append((element, time.time(), delay))\n        self._not_empty.notify()\n        self._lock.release()", "        with self._not_empty:\n            self._queue.append((element, time.time(), delay))\n            self._not_empty.notify()")]),
